@@ -54,8 +54,19 @@ func callDet(d func([]byte, uint32) bool, raw []byte, limit uint32) (r bool, pan
 	return d(raw, limit), ""
 }
 
-// c01DetEval: the header cs.In is handed to every detector with limit cs.Limit.
+// c01DetEval: the header is handed to every detector with limit cs.Limit.
+// When Ints[0] is present, cs.In = header || continuation and Ints[0] is the
+// header length: the spare capacity behind the header is then also filled with
+// the *true continuation* of the witness, so that a detector that re-slices
+// beyond len(raw) sees a complete signature there and changes its verdict.
 func c01DetEval(cs *core.Case) (bool, string, string) {
+	full := cs.In
+	if len(cs.Ints) > 0 && cs.Ints[0] <= len(cs.In) {
+		saved := cs.In
+		cs.In = cs.In[:cs.Ints[0]]
+		defer func() { cs.In = saved }()
+	}
+	cont := full[len(cs.In):]
 	n := len(cs.In)
 	if n+64 > len(c01Arena)/2 {
 		c01Arena = make([]byte, 2*(n+64)+1024)
@@ -97,6 +108,18 @@ func c01DetEval(cs *core.Case) (bool, string, string) {
 		}
 		if rT {
 			c01Accepts++
+		}
+		rW := rT
+		for k := range spare {
+			spare[k] = 0
+		}
+		copy(spare, cont)
+		rW, p = callDet(nd.Det, S, cs.Limit)
+		if p != "" {
+			return false, "C01/panic/" + id + "/" + firstLine(p), fmt.Sprintf("detector %s panics on header %s limit %d: %s", id, core.Quote(cs.In), cs.Limit, p)
+		}
+		if rT != rW {
+			return false, "C01/reads-outside/" + id, fmt.Sprintf("detector %s gives %v on the tight header and %v when the spare capacity behind the header %s (limit %d) holds the continuation of the file / zeros: it read outside the bytes it was given", id, rT, rW, core.Quote(cs.In), cs.Limit)
 		}
 		if rT != rA || rA != rB {
 			return false, "C01/reads-outside/" + id, fmt.Sprintf("detector %s gives %v on the tight header, %v / %v with different bytes *after* the header %s (limit %d): it read outside the bytes it was given", id, rT, rA, rB, core.Quote(cs.In), cs.Limit)
@@ -193,9 +216,19 @@ func c01Run(c *core.Ctx) {
 	api := &core.Case{Kind: "c01api", Ints: []int{0}}
 	c.Info("detectors", fmt.Sprint(len(c01Nodes)))
 
+	var contOf []byte // when set: the bytes that follow the header in the witness
 	hdr := func(h []byte, class string) { // one header to every detector, 5 limits
 		c.R.States++
 		det.In = h
+		det.Ints = det.Ints[:0]
+		if contOf != nil {
+			k := len(contOf)
+			if k > 64 {
+				k = 64
+			}
+			det.In = append(append(make([]byte, 0, len(h)+k), h...), contOf[:k]...)
+			det.Ints = append(det.Ints, len(h))
+		}
 		acc := 0
 		for _, l := range c01Limits(len(h)) {
 			det.Limit = l
@@ -296,7 +329,12 @@ func c01Run(c *core.Ctx) {
 		for k := range cuts {
 			h := w.Data[:k]
 			if k <= 4800 {
+				contOf = w.Data[k:]
+				if len(contOf) == 0 {
+					contOf = nil
+				}
 				hdr(h, "f2:witness-prefix")
+				contOf = nil
 			}
 			apis(h, []uint32{0, uint32(k)}, []int{0}, "f2:witness-prefix")
 			apis(w.Data, []uint32{uint32(k)}, []int{0, 1}, "f2:witness-prefix")
